@@ -5,6 +5,13 @@ HERE = os.path.dirname(os.path.dirname(os.path.abspath(__file__)))
 ALL = [f"C{i:02d}" for i in range(1, 19)]
 # property -> (technique, level text, level note, design_ref)
 CHECKS = {
+ "C13": ("runtime rejection monitor: every method of every concrete class / generated composition / flow is called with every wrong shape "
+         "of a lattice built around the declared shape (x and condition, missing condition) and must raise; well-formed calls must return "
+         "the declared shapes; structural contract that all four methods of every concrete class carry the checking wrapper; constructor negatives",
+         "Exploration, exhaustive over the per-structure lattice: ~270 structures x 4 methods x ~15 wrong x shapes + condition shapes "
+         "(2e4 calls that must raise per quick run), 10 distributions, 29 constructor negatives, 28 classes inspected.",
+         "Any exception counts as rejection; unconditional objects legitimately ignore a supplied condition.",
+         "DESIGN.md 4/C13"),
  "C12": ("runtime contracts and reference monitors: icontract post-condition on the real unwrap (no wrapper left, idempotent) evaluated on "
          "every concrete call; independent NumPy evaluator for wrapper nestings; vmapped vs individual construction; wrapped vs "
          "pre-unwrapped method calls; exact-zero gradients and byte-identity of frozen / non-floating leaves across real training runs",
